@@ -66,6 +66,12 @@ Definition bindM {A B} (m : M A) (f : A -> M B) : M B :=
 Definition silence {A} (m : M A) : M A := (fst m, []).
 
 (* ---- configuration of one rendering ---- *)
+(* WHERE the templates perform a check relative to the accesses it protects (true = textually before them), per macro; computed in
+   Properties/C04.v from the check / access event lists scanned from the templates (`check_first`), consulted by the walkers below:
+   with a flag false the walker performs the accesses first and the check afterwards, and the bounds theorems do not apply *)
+Record chkplan : Type := { pl_ser_impl : bool; pl_ser_vla : bool; pl_des_vla : bool; pl_des_hdr : bool }.
+Definition all_first : chkplan := {| pl_ser_impl := true; pl_ser_vla := true; pl_des_vla := true; pl_des_hdr := true |}.
+
 Record cfg : Type := {
   ov : ty -> nat -> nat;        (* element type, DSDL capacity -> number of elements the generated `elements[]` holds *)
   up_front : bool;              (* the `8*capacity_bytes < max` check of _serialize_impl is compiled in
@@ -78,12 +84,20 @@ Record cfg : Type := {
   guarded : bool;               (* every store that does not go through a checked primitive is preceded by a run-time bound *)
   ptr_clamp : bool;             (* _deserialize_composite forms &buffer[min(offset_bits / 8, capacity_bytes)] *)
   bulk_on : bool;               (* arrays of bool / zero-cost primitives are moved by one CopyBits / GetBits call (C; not C++) *)
+  nested_strict : bool;         (* C++: bitspan::subspan(bits_at, size_bits) REFUSES (TOO_SMALL) when the nested window does not fit,
+                                   before the nested routine runs; C hands the nested routine its maximum size unconditionally *)
+  plan : chkplan;
 }.
+Definition plan_ok (c : cfg) : Prop := plan c = all_first.
+
+(* a check and the code it protects, in the order the plan says *)
+Definition ordered {A} (first cond : bool) (e : derr) (body : M A) : M A :=
+  if first then (if cond then fail e else body) else bindM body (fun a => if cond then fail e else ret a).
 
 Definition dyn_al (off : nat) : bool := off mod 8 =? 0.
 Definition std_cfg (le : bool) : cfg :=
   {| ov := fun _ c => c; up_front := true; little := le; al := dyn_al; len_chk_storage := false; guarded := false; ptr_clamp := true;
-     bulk_on := true |}.
+     bulk_on := true; nested_strict := false; plan := all_first |}.
 Definition cap_ok (c : cfg) : Prop := forall e n, n <= ov c e n.
 (* the array length checks keep every index inside the storage *)
 Definition cap_sound (c : cfg) : Prop := len_chk_storage c = true \/ cap_ok c.
@@ -136,6 +150,10 @@ Definition w_store (c : cfg) (lim off w : nat) : M nat := if guarded c then w_ch
 Definition w_guard (c : cfg) (lim off w : nat) : M nat :=
   if guarded c && (lim <? off + w) then fail ETooSmall else ret (off + w).
 
+(* before a nested call: the `_guard(0)` of the guarded rendering; the C++ subspan(bits_at, size_bits) range check *)
+Definition w_nest (c : cfg) (lim o1 sz : nat) : M nat :=
+  if (guarded c && (lim <? o1)) || (nested_strict c && (lim <? o1 + sz)) then fail ETooSmall else ret o1.
+
 Definition ws_pad (lim off a : nat) : M nat :=
   if off mod a =? 0 then ret off else w_checked lim off (a - off mod a).
 
@@ -186,15 +204,15 @@ Definition ws_field (c : cfg) (Sr : ty -> cobj -> nat -> nat -> M nat) (t : ty) 
       | Some _ =>
           if bmin t =? bmax t then                      (* constant header written ahead: _serialize_integer(uint32) *)
             bindM (ws_prim c (PU header_bits false) lim off) (fun o1 =>
-              bindM (w_guard c lim o1 0) (fun _ =>
+              bindM (w_nest c lim o1 sz) (fun _ =>
                 bindM (tell [BP (o1 / 8)]) (fun _ => Sr t o (nlim o1) o1)))
           else                                          (* reserve 32 bits, nested call, jump back to store the header *)
             bindM (w_guard c lim off header_bits) (fun o1 =>
-              bindM (w_guard c lim o1 0) (fun _ =>
+              bindM (w_nest c lim o1 sz) (fun _ =>
                 bindM (tell [BP (o1 / 8)]) (fun _ =>
                   bindM (Sr t o (nlim o1) o1) (fun o2 =>
                     bindM (if little c then w_store c lim off header_bits else w_checked lim off header_bits) (fun _ => ret o2)))))
-      | None => bindM (w_guard c lim off 0) (fun _ => bindM (tell [BP (off / 8)]) (fun _ => Sr t o (nlim off) off))
+      | None => bindM (w_nest c lim off sz) (fun _ => bindM (tell [BP (off / 8)]) (fun _ => Sr t o (nlim off) off))
       end
   | _ => Sr t o lim off
   end.
@@ -210,14 +228,13 @@ Fixpoint ws_body (c : cfg) (t : ty) (o : cobj) (lim off : nat) : M nat :=
         end)
   | TVar e cap =>
       let n := o_count o in
-      if chk_cap c e cap <? n then fail EBadLen                             (* before anything is touched *)
-      else
-        bindM (tell [OA (ov c e cap) n]) (fun _ =>
+      ordered (pl_ser_vla (plan c)) (chk_cap c e cap <? n) EBadLen                  (* before anything is touched *)
+        (bindM (tell [OA (ov c e cap) n]) (fun _ =>
           bindM (ws_prim c (PU (prefix_bits cap) false) lim off) (fun o1 =>
             match bulk c e with
             | Some w => w_store c lim o1 (n * w)
             | None => ws_list (fun x off' => ws_field c (ws_body c) e x lim off') n (o_elems o) o1
-            end))
+            end)))
   | TComp false fs _ => ws_fields (ws_field c (ws_body c)) fs (o_elems o) lim off
   | TComp true fs _ =>
       bindM (ws_prim c (PU (tag_bits (length fs)) false) lim off) (fun o1 =>     (* the tag is stored first ... *)
@@ -227,8 +244,8 @@ Fixpoint ws_body (c : cfg) (t : ty) (o : cobj) (lim off : nat) : M nat :=
 
 (* T_serialize_(obj, buffer, &size) with *size = capB; result = size in bytes *)
 Definition walk_ser_safe (c : cfg) (t : ty) (o : cobj) (capB : nat) : M nat :=
-  if up_front c && (8 * capB <? bmax t) then fail ETooSmall
-  else bindM (ws_body c t o (8 * capB) 0) (fun off => ret (off / 8)).
+  ordered (pl_ser_impl (plan c)) (up_front c && (8 * capB <? bmax t)) ETooSmall
+    (bindM (ws_body c t o (8 * capB) 0) (fun off => ret (off / 8))).
 
 (* =====================================================  deserialization  ===================================================== *)
 (* footprint of nunavutGetBits / nunavutGetU* ...: the saturated fragment *)
@@ -291,10 +308,10 @@ Definition wd_field (c : cfg) (D : ty -> cobj -> list bool -> nat -> nat -> rres
       bindM (rd_uint c header_bits buf cap off) (fun hN =>
         let o := off + header_bits in
         let remaining := cap / 8 - Nat.min (o / 8) (cap / 8) in
-        if (N.of_nat remaining <? hN)%N then fail EBadHdr
-        else let h := N.to_nat hN in
+        ordered (pl_des_hdr (plan c)) (N.of_nat remaining <? hN)%N EBadHdr
+          (let h := N.to_nat hN in
              bindM (tell [BP (ptr_at c cap o)]) (fun _ =>
-               bindM (D t p buf (Nat.min cap (o + 8 * h)) o) (fun '(v, _) => ret (v, o + 8 * h))))
+               bindM (D t p buf (Nat.min cap (o + 8 * h)) o) (fun '(v, _) => ret (v, o + 8 * h)))))
   | TComp _ _ None =>
       bindM (tell [BP (ptr_at c cap off)]) (fun _ =>
         bindM (D t p buf cap off) (fun '(v, o') =>
@@ -316,15 +333,14 @@ Fixpoint wd_body (c : cfg) (t : ty) (p : cobj) (buf : list bool) (cap off : nat)
   | TVar e cp =>
       let pw := prefix_bits cp in
       bindM (rd_uint c pw buf cap off) (fun nN =>                     (* stored into .count, then compared *)
-        if (N.of_nat (chk_cap c e cp) <? nN)%N then fail EBadLen
-        else
-          let n := N.to_nat nN in
+        ordered (pl_des_vla (plan c)) (N.of_nat (chk_cap c e cp) <? nN)%N EBadLen
+          (let n := N.to_nat nN in
           bindM (tell [OA (ov c e cp) n]) (fun _ =>
             bindM (match bulk c e with
                    | Some w => bindM (tell (rd_log cap (off + pw) (n * w))) (fun _ =>
                                  silence (wd_list (wd_field c (wd_body c) e) n (o_elems p) buf cap (off + pw)))
                    | None => wd_list (wd_field c (wd_body c) e) n (o_elems p) buf cap (off + pw)
-                   end) (fun '(vs, o) => ret (CVar n vs, o))))
+                   end) (fun '(vs, o) => ret (CVar n vs, o)))))
   | TComp false fs _ =>
       bindM (wd_fields (wd_field c (wd_body c)) fs (o_elems p) buf cap off) (fun '(vs, o) => ret (CStruct vs, o))
   | TComp true fs _ =>
@@ -373,5 +389,10 @@ Definition des_err_documented (e : derr) : bool := match e with EBadLen | EBadTa
 (* ---- check / access events of a template macro in textual order (scanned by tools/translators/gen_c04.py) ---- *)
 Inductive ev : Type := EvCheck | EvAccess.
 (* every access is preceded by a check (and there is one) *)
-Definition check_first (l : list ev) : bool :=
-  match l with EvCheck :: r => forallb (fun e => match e with EvAccess => true | EvCheck => true end) r | _ => false end.
+Fixpoint covered (seen_check : bool) (l : list ev) : bool :=
+  match l with
+  | [] => true
+  | EvCheck :: r => covered true r
+  | EvAccess :: r => seen_check && covered seen_check r
+  end.
+Definition check_first (l : list ev) : bool := covered false l && existsb (fun e => match e with EvAccess => true | _ => false end) l.
